@@ -10,7 +10,8 @@ SPEC = dict(
          'KSI_PublicationsFile_fromFile, a file object parsed under another context, constraint lists on the file object, and verification repeated after a serialization; signature swapped between files; '
          '(flip) every single-bit change of a small signed file; (lookup) ALL publication-time sequences up to a length over times {1..5} x query times 0..6 and none x every lookup function, certificate ids present / absent / altered / prefix / extended. '
          'Oracle: reference structure rule, offset of the signature record, reference trust decision, reference scan. '
-         'Constraint sets 7..9: an attribute the signer\'s subject lacks (after a matching constraint expecting the same string; alone) and a second matching constraint.',
+         'Constraint sets 7..9: an attribute the signer\'s subject lacks (after a matching constraint expecting the same string; alone) and a second matching constraint. '
+         'After a publication record was removed in place and the file serialized again, the signed range ends where the signature record of the new bytes starts.',
     bounds=dict(quick='record sequences len<=5 (9331 x variants); bit flips: 2 bits per byte of the file; publication-time sequences len<=3',
                 thorough='record sequences len<=6; every bit of the file; publication-time sequences len<=4'),
     technique='bounded-exhaustive enumeration of record sequences, trust configurations, bit flips and lookup tables against a reference structure rule / trust decision / scan',
